@@ -59,8 +59,10 @@ ExpLane(cfg, st, in, o, g) ==
   ELSE LET c == Chunk(cfg, st, in.adr, g)
            firsts == {k \in 1..Len(o.events) : o.events[k].res = r /\ o.events[k].kind = "r"} IN
        IF firsts # {} THEN ChunkOf(o.events[CHOOSE k \in firsts : TRUE].rdata, c, cfg.cdw)
-       ELSE IF cfg.leaf[r].const = 1 THEN ChunkOf(cfg.leaf[r].value, c, cfg.cdw)
-       ELSE Unknowns(cfg.cdw)          \* continues a read begun by an earlier transaction
+       \* a later chunk without the first chunk in this transfer continues (or breaks) a CSR read
+       \* transaction begun earlier: its data is the multiplexer's business (C04), not the map's -
+       \* shadow chunks may even be shared with a register read in between
+       ELSE Unknowns(cfg.cdw)
 \* write data delivered with a write strobe, when this transaction wrote every chunk of the register
 WholeWrite(cfg, st, in, r) ==
   \A c \in 0..LastChunk(st, r) : LET a == Entry(st, r).start + c IN
